@@ -21,7 +21,7 @@ from itertools import count
 from math import inf
 from opcode import opname
 from types import BuiltinFunctionType, BuiltinMethodType, CodeType, MethodType, TracebackType
-from typing import TYPE_CHECKING, Concatenate, ParamSpec
+from typing import TYPE_CHECKING, Any, Concatenate, ParamSpec
 
 from bytecode.instr import CellVar, FreeVar
 
@@ -1044,6 +1044,27 @@ def _positive_distance(compute: Callable[[], float]) -> float:
     return distance
 
 
+def _complement(distance: Callable[[Any, Any], float], val1, val2) -> float:
+    """Distance to the outcome the instrumented comparison is not evaluated for.
+
+    The module under test does not perform this comparison itself, hence nothing
+    that it raises (e.g., because only one of `<` and `<=` is implemented) may reach
+    the module under test.
+
+    Args:
+        distance: the distance computation
+        val1: the first value
+        val2: the second value
+
+    Returns:
+        the distance, which is infinite if it cannot be computed
+    """
+    try:
+        return distance(val1, val2)
+    except Exception:  # noqa: BLE001
+        return inf
+
+
 def _eq(val1, val2) -> float:
     """Distance computation for '=='.
 
@@ -1343,38 +1364,44 @@ class ExecutionTracer(AbstractExecutionTracer):  # noqa: PLR0904
 
             match cmp_op:
                 case PynguinCompare.EQ:
-                    distance_true, distance_false = _eq(value1, value2), _neq(value1, value2)
+                    distance_true, distance_false = (
+                        _eq(value1, value2),
+                        _complement(_neq, value1, value2),
+                    )
                 case PynguinCompare.NE:
-                    distance_true, distance_false = _neq(value1, value2), _eq(value1, value2)
+                    distance_true, distance_false = (
+                        _neq(value1, value2),
+                        _complement(_eq, value1, value2),
+                    )
                 case PynguinCompare.LT:
                     distance_true, distance_false = (
                         _lt(value1, value2),
-                        _le(value2, value1),
+                        _complement(_le, value2, value1),
                     )
                 case PynguinCompare.LE:
                     distance_true, distance_false = (
                         _le(value1, value2),
-                        _lt(value2, value1),
+                        _complement(_lt, value2, value1),
                     )
                 case PynguinCompare.GT:
                     distance_true, distance_false = (
                         _lt(value2, value1),
-                        _le(value1, value2),
+                        _complement(_le, value1, value2),
                     )
                 case PynguinCompare.GE:
                     distance_true, distance_false = (
                         _le(value2, value1),
-                        _lt(value1, value2),
+                        _complement(_lt, value1, value2),
                     )
                 case PynguinCompare.IN:
                     distance_true, distance_false = (
                         _in(value1, value2),
-                        _nin(value1, value2),
+                        _complement(_nin, value1, value2),
                     )
                 case PynguinCompare.NOT_IN:
                     distance_true, distance_false = (
                         _nin(value1, value2),
-                        _in(value1, value2),
+                        _complement(_in, value1, value2),
                     )
                 case PynguinCompare.IS:
                     distance_true, distance_false = (
